@@ -50,6 +50,12 @@ type layoutCtx struct {
 	errs []string
 }
 
+// valueFail records a finding about the value a field receives, not about where the bytes are read: the
+// layout is still extracted. Properties that only need the layout (C19) ignore these.
+func (lc *layoutCtx) valueFail(n ast.Node, format string, args ...interface{}) {
+	lc.errs = append(lc.errs, fmt.Sprintf("VALUE: %s: %s", lc.p.Pos(n.Pos()), fmt.Sprintf(format, args...)))
+}
+
 func (lc *layoutCtx) fail(n ast.Node, format string, args ...interface{}) {
 	lc.errs = append(lc.errs, fmt.Sprintf("%s: %s", lc.p.Pos(n.Pos()), fmt.Sprintf(format, args...)))
 }
@@ -937,7 +943,7 @@ func (ds *decState) assign(s *ast.AssignStmt) {
 			}
 		}
 		if !okAlloc {
-			lc.fail(s, "field %s is assigned from %s, which is not a read of the input: the decoded value is not what the wire carries", lhsField, types.ExprString(rhs))
+			lc.valueFail(s, "field %s is assigned from %s, which is not a read of the input: the decoded value is not what the wire carries", lhsField, types.ExprString(rhs))
 		}
 		return
 	}
@@ -1302,11 +1308,28 @@ func widerThan8(t types.Type) bool {
 	return ok && b.Info()&types.IsInteger != 0 && b.Kind() != types.Uint8 && b.Kind() != types.Int8
 }
 
-func ruleLayout(p *Program, r *Result) {
+// ruleLayout compares the extracted layouts with RFC 8907. sides selects encoders ("e"), decoders ("d") or
+// both; with values=false only the position and width of what is read is decided, not that every field
+// receives exactly the bytes read (enough for 'a well-formed body has size == sum of its length fields').
+func ruleLayout(p *Program, r *Result, sides string, values bool) {
+	full := r
 	for _, t := range layoutOrder {
 		want := rfcLayouts[t]
 		enc, eerrs := extractEncoder(p, t)
 		dec, derrs := extractDecoder(p, t)
+		if !values {
+			var keep []string
+			for _, e := range derrs {
+				if !strings.HasPrefix(e, "VALUE: ") {
+					keep = append(keep, e)
+				}
+			}
+			derrs = keep
+		}
+		r := full
+		if !strings.Contains(sides, "e") {
+			r = newResult("discard")
+		}
 		pos := "-"
 		if nt := p.lookupType("", t); nt != nil {
 			pos = p.Pos(nt.Obj().Pos())
@@ -1318,6 +1341,10 @@ func ruleLayout(p *Program, r *Result) {
 		} else {
 			r.bad("R-LAYOUT", t+":encoder", pos, "%s.MarshalBinary writes %v but RFC 8907 prescribes %v (first difference at item %d)", t, enc, want, firstDiff(enc, want))
 		}
+		r = full
+		if !strings.Contains(sides, "d") {
+			r = newResult("discard")
+		}
 		if len(derrs) > 0 {
 			r.undecided("R-LAYOUT", t+":decoder", pos, "%s.UnmarshalBinary is outside the idioms the layout extraction reads: %s", t, strings.Join(derrs, "; "))
 		} else if strings.Join(dec, " ") == strings.Join(want, " ") {
@@ -1326,8 +1353,13 @@ func ruleLayout(p *Program, r *Result) {
 			r.bad("R-LAYOUT", t+":decoder", pos, "%s.UnmarshalBinary reads %v but RFC 8907 prescribes %v (first difference at item %d)", t, dec, want, firstDiff(dec, want))
 		}
 	}
+	r = full
 	ruleCursorHelpers(p, r)
-	r.floor("R-LAYOUT", 22)
+	if sides == "ed" {
+		r.floor("R-LAYOUT", 22)
+	} else {
+		r.floor("R-LAYOUT", 11)
+	}
 }
 
 func firstDiff(a, b []string) int {
